@@ -285,15 +285,15 @@ def judgeSqlCase (D : Defects) (c gat : String) : String :=
     else if !gat.startsWith "obs " then s!"bad implementation failed: {gat.take 60}"
     else
       let parts := ((gat.drop 4).toString).splitOn " ; "
-      if parts.length ≠ n then s!"bad number of observations ({parts.length}) differs from the number of operations ({n})"
-      else
-        let rec go (i : Nat) (st : QSt) : List String → String
-          | [] => "ok"
-          | o :: os =>
-            match stepObs D i st o with
-            | .ok st' => go (i + 1) st' os
-            | .error e => "bad " ++ e
-        go 0 {} parts
+      let rec go (i : Nat) (st : QSt) : List String → String
+        | [] =>
+          if i = n then "ok"
+          else s!"bad number of observations ({i}) differs from the number of operations ({n})"
+        | o :: os =>
+          match stepObs D i st o with
+          | .ok st' => go (i + 1) st' os
+          | .error e => "bad " ++ e
+      go 0 {} parts
 
 def judge (flags : List String) (line : String) : String :=
   let D := parseFlags flags
